@@ -4,6 +4,7 @@ import Mp.JsonProofs
 import Mp.ProofsSim
 import Mp.ProofsSim2
 import Mp.ProofsL3
+import Mp.JsonOutProofs
 /-! C10 — property theorems (proved in the imported modules; statements are checked there, axioms audited here). -/
 #print axioms Mp.sim_normalize
 #print axioms Mp.func_carrier_independent
@@ -20,3 +21,6 @@ import Mp.ProofsL3
 #print axioms Mp.GoJson.parseJSON_func
 #print axioms Mp.GoJson.sPart_parseJSON
 #print axioms Mp.GoJson.parseJSON_then_path
+#print axioms Mp.GoJson.marshal_render
+#print axioms Mp.GoJson.asJSON_func
+#print axioms Mp.GoJson.asJSON_then_parseJSON
